@@ -16,9 +16,15 @@
     ueq_is_third_trace                              Atom.ueq (repaired chain) = ⅓ Σ U_ij a*_i a*_j (a_i·a_j)
     ueq_old_value, ueq_old_fails_on, ucart_old_not_symmetric, ueq_old_right_if_orthogonal   the chain before fixes/C12_1
     iso_branch_only_iso, iso_branch_old_fails_on    the isotropic branch of set_ueq (fixes/C12_2)
-    sylvester, posdef_congr, ucart_posdef_iff, is_npd_iff, npd_iff
-                                                    Atom.is_npd (repaired, fixes/C12_3) ⇔ U_cart not positive definite
+    sylvester, posdef_congr, ucart_posdef_iff, is_npd_iff, npd_iff, principal_minors_iff, is_npd_principal_iff
+                                                    Atom.is_npd (repaired: fixes/C12_3 leading minors, C12_5 all seven
+                                                    principal minors) ⇔ U_cart not positive definite
                                                     ⇔ Sylvester's test fails on the six file values (the harness oracle, Rat)
+    history_coherent, history_cart, frac_setter_old_fails_on
+                                                    after ANY sequence of public edits of an atom (uvals assignment / item /
+                                                    set_uvals / to_isotropic / frac_coords setter, fixes/C12_4) on a parsed or
+                                                    add_atom-made atom, cart_coords belongs to the CURRENT position and the
+                                                    tensor observables read the CURRENT U values
   Not proved (stated, not hidden): rounding of IEEE doubles (every case of a run is compared at 1e-9), and the
   convergence of the QR iteration `misc.eigenvals`, which `is_npd` no longer uses after fixes/C12_3.
 -/
@@ -656,5 +662,102 @@ theorem validCell_of_angles (a b c al be ga : ℝ) (ha : 0 < a) (hb : 0 < b) (hc
   eb := by have := Real.sin_sq_add_cos_sq be; simp only [cellOfAngles]; nlinarith
   eg := by have := Real.sin_sq_add_cos_sq ga; simp only [cellOfAngles]; nlinarith
   hD := hD
+
+/-- for a symmetric matrix: positive definite ⇔ ALL seven principal minors (as the repaired `Atom.is_npd` computes
+    them) are positive.  (⇐ is Sylvester on the three leading ones; ⇒ says the four extra tests never reject a
+    positive definite tensor.) -/
+theorem principal_minors_iff (m : M3 ℝ) (hsym : transpose m = m) :
+    PosDef m ↔ ∀ x ∈ principalMinors m, 0 < x := by
+  constructor
+  · intro hp
+    obtain ⟨h1, h2, h3⟩ := (sylvester_sym m hsym).mp hp
+    obtain ⟨⟨m00, m01, m02⟩, ⟨m10, m11, m12⟩, ⟨m20, m21, m22⟩⟩ := m
+    simp only [transpose, col0, col1, col2, M3.mk.injEq, V3.mk.injEq] at hsym
+    obtain ⟨⟨-, e1, e2⟩, ⟨-, -, e3⟩, -⟩ := hsym
+    subst e1 e2 e3
+    simp only [npdMinors] at h1 h2 h3
+    have q1 := hp ⟨0, 1, 0⟩ (by simp)
+    have q2 := hp ⟨0, 0, 1⟩ (by simp)
+    have q3 := hp ⟨-m20, 0, m00⟩ (by intro h0; simp only [V3.mk.injEq] at h0; linarith [h0.2.2])
+    have q4 := hp ⟨0, -m21, m11⟩ (by
+      intro h0; simp only [V3.mk.injEq] at h0
+      have : (0:ℝ) < m11 := by simp only [quad, mulVec, dot] at q1; linarith
+      linarith [h0.2.2])
+    simp only [quad, mulVec, dot] at q1 q2 q3 q4
+    have p11 : 0 < m11 := by linarith
+    have p22 : 0 < m22 := by linarith
+    have p13 : 0 < m00 * (m00 * m22 - m20 * m20) := by linarith
+    have p23 : 0 < m11 * (m11 * m22 - m21 * m21) := by linarith
+    have p13' := pos_right_of_mul_pos p13 h1
+    have p23' := pos_right_of_mul_pos p23 p11
+    intro x hx
+    simp only [principalMinors, List.mem_cons, List.mem_nil_iff, or_false] at hx
+    rcases hx with rfl | rfl | rfl | rfl | rfl | rfl | rfl
+    · exact h1
+    · exact p11
+    · exact p22
+    · exact h2
+    · linarith
+    · linarith
+    · exact h3
+  · intro hall
+    apply (sylvester_sym m hsym).mpr
+    simp only [npdMinors]
+    refine ⟨hall _ ?_, hall _ ?_, hall _ ?_⟩ <;> simp [principalMinors]
+
+/-- **is_npd_iff** for `Atom.is_npd` as it is now (all principal minors of the repaired `u_cart`) -/
+theorem is_npd_principal_iff {sqrt : ℝ → ℝ} (hs : IsSqrt sqrt) (c : Cell ℝ) (h : ValidCell c) (u : U6 ℝ) :
+    let uc := ucart (orthoM sqrt c) (nMat sqrt c) (ucif u)
+    ((¬ ∀ x ∈ principalMinors uc, 0 < x) ↔ ¬ PosDef uc) ∧
+    ((¬ ∀ x ∈ principalMinors uc, 0 < x) ↔ ¬ (0 < (minors u).x ∧ 0 < (minors u).y ∧ 0 < (minors u).z)) := by
+  have hsym := ucart_symm (orthoM sqrt c) (recip sqrt c) u
+  have e1 := principal_minors_iff _ hsym
+  have e2 := ucart_posdef_iff hs c h u
+  simp only [nMat] at *
+  exact ⟨not_congr e1.symm, by rw [← e1, e2]⟩
+
+/-! ### histories of edits on one Atom object -/
+
+/-- **history_coherent**: after ANY sequence of the public edits, on an atom that was parsed or created with
+    `add_atom`, the cached Cartesian coordinates are those of the CURRENT fractional coordinates, and the position and
+    the U values every observable reads are the ones the history assigned last -/
+theorem history_coherent (m : M3 ℝ) (s : AtomSt ℝ) (es : List (Edit ℝ)) (h0 : s.cart = mulVec m s.frac) :
+    (history m s es).cart = mulVec m (history m s es).frac ∧
+    (history m s es).frac = specFrac s.frac es ∧ (history m s es).uvals = specUvals s.uvals es := by
+  induction es generalizing s with
+  | nil => exact ⟨h0, rfl, rfl⟩
+  | cons e es ih =>
+    have hstep : (applyEdit m s e).cart = mulVec m (applyEdit m s e).frac := by
+      cases e <;> simp only [applyEdit] <;> exact h0
+    have := ih (applyEdit m s e) hstep
+    simp only [history, List.foldl_cons] at this ⊢
+    refine ⟨this.1, ?_, ?_⟩
+    · rw [this.2.1]; cases e <;> rfl
+    · rw [this.2.2]; cases e <;> rfl
+
+/-- … so for every valid cell `Atom.cart_coords` after any history is the conventional-setting image of the atom's
+    current position, for parsed atoms and for atoms made by `Shelxfile.add_atom` alike -/
+theorem history_cart {sqrt : ℝ → ℝ} (hs : IsSqrt sqrt) (c : Cell ℝ) (h : ValidCell c) (p : V3 ℝ) (u : U6 ℝ)
+    (es : List (Edit ℝ)) :
+    (history (orthoM sqrt c) (parseAtom (orthoM sqrt c) p u) es).cart
+      = mulVec (cholUpper sqrt (metric c)) (specFrac p es) ∧
+    (history (orthoM sqrt c) (newAtom sqrt c p u) es).cart
+      = mulVec (cholUpper sqrt (metric c)) (specFrac p es) := by
+  rw [ortho_is_cholesky hs c h]
+  constructor
+  · obtain ⟨h1, h2, _⟩ := history_coherent (orthoM sqrt c) (parseAtom (orthoM sqrt c) p u) es rfl
+    rw [h1, h2]; rfl
+  · obtain ⟨h1, h2, _⟩ := history_coherent (orthoM sqrt c) (newAtom sqrt c p u) es
+      (by simp only [newAtom]; exact frac_to_cart_agrees hs c h p)
+    rw [h1, h2]; rfl
+
+/-- the setter before fixes/C12_4 broke exactly this: one `atom.frac_coords = …` leaves the old Cartesian coordinates -/
+theorem frac_setter_old_fails_on :
+    ¬ (∀ (p q : V3 ℚ), (historyOld (orthoM sqrtW cellW) (parseAtom (orthoM sqrtW cellW) p uW) [.setFrac q]).cart
+        = mulVec (orthoM sqrtW cellW) q) := by
+  intro hst
+  have := congrArg V3.x (hst ⟨0, 0, 0⟩ ⟨1, 0, 0⟩)
+  revert this
+  decide +kernel
 
 end Shelx.C12
